@@ -1,6 +1,7 @@
 package props
 
 import (
+	"strings"
 	"math/big"
 
 	"github.com/terra-money/alliance/x/alliance"
@@ -114,6 +115,21 @@ func c03Step(x *engine.Exec) []engine.Failure {
 	if x.Op.K == world.KBlock && !prev.Fee.Equal(s.Fee) {
 		x.Cnt.Inc("block.take_rate")
 	}
+	// K-C10-validator-removed: x/staking removed a validator that alliance delegations still point at; AfterValidatorRemoved
+	// deleted its record while its shares stay in the asset totals and the delegations - the ledger cannot add up any more
+	if x.W.Cfg.FullPipeline {
+		for _, p := range s.Pos {
+			if p.V >= 0 && !s.Vals[p.V].Present {
+				x.Cnt.Inc("state.alliance_stake_on_removed_validator")
+				for i := range out {
+					if out[i].Cause == "" || out[i].Cause == "broken" || strings.HasSuffix(out[i].Cause, "-share-sum") {
+						out[i].Cause = "validator-removed-while-alliance-stake-on-it"
+					}
+				}
+				break
+			}
+		}
+	}
 	return out
 }
 
@@ -162,6 +178,7 @@ func init() {
 					mk("c03-cycled", small, [][]world.Op{cycled, dust}, []int{5, 2, 0, 3, 0}, 7),
 					mk("c03-magnitude", mag, [][]world.Op{nil}, []int{6, 2, 0, 2, 0}, 8),
 					unionScenario("C03", "c03-union", tier, c03Step, nil),
+					unionFullScenario("C03", "c03-union-full-pipeline", tier, c03Step, nil, 7),
 				}
 			}
 			return []*engine.Scenario{
@@ -169,6 +186,7 @@ func init() {
 				mk("c03-cycled", small, [][]world.Op{cycled, dust}, []int{3, 1, 0, 2, 0}, 3),
 				mk("c03-magnitude", mag, [][]world.Op{nil}, []int{4, 1, 0, 2, 0}, 5),
 				unionScenario("C03", "c03-union", tier, c03Step, nil),
+				unionFullScenario("C03", "c03-union-full-pipeline", tier, c03Step, nil, 4),
 			}
 		},
 		Assumptions: []string{
